@@ -24,6 +24,8 @@ var BranchTuples = []model.Branch{
 	{MidConn: "--", MidCont: "--", LastConn: "==", LastCont: "=-"}, // continuation strings ending in connector characters
 	{MidConn: " ", MidCont: "  ", LastConn: " ", LastCont: "   "},  // blanks only
 	{MidConn: "|", MidCont: "|  ", LastConn: "`", LastCont: "|"},   // a connector that also occurs INSIDE the continuation strings
+	{MidConn: "%d", MidCont: "%s ", LastConn: "%", LastCont: "%%"}, // format verbs: branch strings are data, never a format
+	{MidConn: "a", MidCont: "ab", LastConn: "abc", LastCont: "abcd"}, // every string a prefix of the next
 }
 
 // allBranches lists every index of BranchTuples.
